@@ -1,6 +1,6 @@
 ---------------------------- MODULE Gen_DictOps ----------------------------
 (* Behaviour generator for the dictionary lifecycle (C05 C06 C08): every history over
-     load user lexicon U1 / U2, clear it, remap ids with a rotation or a swap (two permutations
+     load user lexicon U1 / U2 / a CSV without rows, clear it, remap ids with a rotation or a swap (two permutations
      of three non-zero ids that do NOT commute), write;read
    up to Depth steps on a 4x4-id dictionary, printed as a dictionary session for the replayer
    (which projects the real dictionary and tokenizes probes after every step).  The abstract
@@ -26,11 +26,13 @@ Probes == << <<97, 98, 97>>, <<98, 97, 98>>, <<97, 97>> >>
 Opt == [isp |-> FALSE, mgl |-> 0]
 
 Steps == { [step |-> "user", clear |-> FALSE, rows |-> U1], [step |-> "user", clear |-> FALSE, rows |-> U2], [step |-> "user", clear |-> TRUE],
+           [step |-> "user", clear |-> FALSE, rows |-> <<>>],      \* a CSV without rows: an error on the pinned tree, nothing changes
            [step |-> "map", ll |-> Rot, rl |-> Swp], [step |-> "map", ll |-> Swp, rl |-> Rot], [step |-> "wr"] }
 VARIABLES dict, ref, hist
 Init == dict = Base0 /\ ref = Base0 /\ hist = <<>>
 Do(st) == /\ hist' = Append(hist, st)
           /\ CASE st.step = "user" /\ st.clear -> dict' = ClearUser(dict) /\ ref' = ClearUser(ref)
+               [] st.step = "user" /\ st.rows = <<>> -> UNCHANGED <<dict, ref>>
                [] st.step = "user" -> dict' = SetUser(dict, st.rows) /\ ref' = SetUser(ref, st.rows)
                [] st.step = "map" -> dict' = MapDict(dict, st.ll, st.rl) /\ UNCHANGED ref
                [] OTHER -> UNCHANGED <<dict, ref>>
